@@ -46,6 +46,8 @@ type zzC14Spec struct {
 	Out    string `json:"out"`    // NDJSON result file
 	Sizes  []int  `json:"sizes"`  // requested document size per save
 	Seed   int64  `json:"seed"`
+	// MaxReads bounds the number of reads of the concurrent reader.
+	MaxReads int `json:"maxreads"`
 }
 
 // zzC14Writer is one of the real save paths.
@@ -146,7 +148,7 @@ func zzC14Run(t *testing.T, sp *zzC14Spec, w zzC14Writer) {
 		go func() {
 			defer wg.Done()
 
-			for id := 1; !stop.Load() && id <= 150000; id++ {
+			for id := 1; !stop.Load() && id <= sp.MaxReads; id++ {
 				lg.add(map[string]any{"ev": "rbegin", "id": id})
 				data, err := os.ReadFile(dst)
 				row := map[string]any{"ev": "rend", "id": id, "n": len(data)}
